@@ -13,6 +13,11 @@ insert_attribute / delete_attribute, values of a new attribute assigned on the
 existing instances, a further instance created), possibly saved and edited
 again, and only then sent through the round-trip oracle: what an earlier save
 did must not show in a later one.
+
+Late family: the population is created BEFORE its associations are defined and
+formalized (raw values in the later referential attributes), connected by those
+values (batch_relate / the loader's populate_connections / not at all) and the
+links then edited with relate / unrelate; the round-trip oracle follows.
 '''
 import itertools
 import os
@@ -33,6 +38,13 @@ ASSUMPTIONS = [
     'the referring classes, keys of different types or of one type with values crossed over the instances, one referring '
     'class with two referentials, overlapping composite / single identifiers), 1-2 instances per class, every resolving '
     'population',
+    'late family: the population is created first, with raw values (omitted = the default of the type stays behind, or the key of '
+    'an existing instance) in the attributes that become referential, THEN the associations are defined and formalized; the '
+    'instances are connected by those raw values through Association.batch_relate (before formalize), through the loader\'s '
+    'populate_connections (after it) or not at all, and the links are then edited by up to 2 (quick) / 3 (thorough) relate / '
+    'unrelate calls; schemas b (1:MC), f (reflexive with phrases), g (association class), h (sub/super, the referential is '
+    'the identifier) and a composite key; what the metamodel shows through its API (attribute reads, navigation) before it is '
+    'serialised is what must load back; one route per serialisation function',
     'history family: an attribute added to a class that has instances is assigned on every existing instance (None = unset '
     'included) before the metamodel is saved again -- an instance without any value for a declared attribute is outside '
     'the domain (serialisation raises AttributeError); only attributes that are neither identifying nor referential are '
@@ -61,16 +73,32 @@ def build_case(xtuml, case):
         m.define_class(kind, [tuple(a) for a in attrs])
     for kind, name, attrs in case.get('uniques', []):
         m.define_unique_identifier(kind, name, *attrs)
-    for a in case.get('assocs', []):
-        rel, src, skeys, smany, scond, sphrase, tgt, tkeys, tmany, tcond, tphrase = a
-        ass = m.define_association(rel, src, list(skeys), smany, scond, sphrase, tgt, list(tkeys), tmany, tcond, tphrase)
-        ass.formalize()
+    late = case.get('late')
+    if not late:
+        for a in case.get('assocs', []):
+            rel, src, skeys, smany, scond, sphrase, tgt, tkeys, tmany, tcond, tphrase = a
+            ass = m.define_association(rel, src, list(skeys), smany, scond, sphrase, tgt, list(tkeys), tmany, tcond, tphrase)
+            ass.formalize()
     insts = []
     for kind, values in case.get('rows', []):
         inst = m.new(kind, **dict((k, v) for k, v in values.items()))
         insts.append(inst)
     for r, attr in case.get('unset', []):
         setattr(insts[r], attr, None)
+    if late:
+        # the population exists (with raw values in the attributes that become referential) BEFORE the associations are
+        # defined and formalized; the instances are then connected by their raw values (Association.batch_relate, or the
+        # loader's populate_connections, or not at all) and the links edited through relate / unrelate
+        for a in case.get('assocs', []):
+            rel, src, skeys, smany, scond, sphrase, tgt, tkeys, tmany, tcond, tphrase = a
+            ass = m.define_association(rel, src, list(skeys), smany, scond, sphrase, tgt, list(tkeys), tmany, tcond, tphrase)
+            if late['connect'] == 'batch_relate':
+                ass.batch_relate()
+            ass.formalize()
+        if late['connect'] == 'populate_connections':
+            xtuml.ModelLoader().populate_connections(m)
+        for name, x, y, rel, phrase in late['edits']:
+            (xtuml.relate if name == 'relate' else xtuml.unrelate)(insts[x], insts[y], rel, phrase)
     for x, y, rel, phrase in case.get('links', []):
         xtuml.relate(insts[x], insts[y], rel, phrase)
     for step in case.get('history', []):
@@ -266,7 +294,7 @@ def _check_case(ctx, xtuml, case, family):
 
 
 def _safe_routes(ctx, xtuml, m0, case, vcase, family):
-    gen = routes(xtuml, m0, with_files=not has_cr(case), tag=str(ctx.n('cases')), full=not case.get('history'))
+    gen = routes(xtuml, m0, with_files=not has_cr(case), tag=str(ctx.n('cases')), full=not (case.get('history') or case.get('late')))
     while True:
         try:
             item = next(gen)
@@ -316,7 +344,8 @@ def check_inferred(ctx, xtuml, m0, case, vcase, family):
 
 def unit_test(case, route):
     return ('import xtuml\n# build the metamodel of this case (see mc/props/c01.py build_case; a "history" is applied after the\n'
-            '# rows and links: save = serialize/persist and discard, append/insert/delete = MetaClass.*_attribute + setattr), then e.g.\n'
+            '# rows and links: save = serialize/persist and discard, append/insert/delete = MetaClass.*_attribute + setattr; with "late" the\n'
+            '# rows are created before define_association/[batch_relate]/formalize/[ModelLoader().populate_connections(m)], edits follow), then e.g.\n'
             '# t = xtuml.serialize_database(m); l = xtuml.ModelLoader(); l.input(t); m1 = l.build_metamodel()\n'
             '# failing route: %s\ncase = %r' % (route, case))
 
@@ -448,7 +477,8 @@ def links_family(tier):
                             values[an] = pool[j]
                         elif ty.lower() == 'unique_id':
                             # (a second identifier 'Alt' takes the values of 'Id' crossed over the instances)
-                            values[an] = 100 * (kinds.index(kind) + 1) + (j if an != 'Alt' else (j + 1) % 2)
+                            # (a third instance keeps its own value: identifying values stay unique, referentials resolve)
+                            values[an] = 100 * (kinds.index(kind) + 1) + (j if an != 'Alt' or j >= 2 else (j + 1) % 2)
                         elif ty.lower() == 'string':
                             values[an] = pool[j % 2] if an.startswith('K') else 'n%d' % j
                         elif ty.lower() == 'integer':
@@ -577,6 +607,67 @@ def history_family(tier):
                             yield finish([['save', r], e1, ['save', r], e2])
 
 
+# ---------------------------------------------------------------------------
+# late family: population first, associations afterwards
+# ---------------------------------------------------------------------------
+
+LATE_CONNECT = ['batch_relate', 'populate_connections', 'none']
+LATE_MAX_EDITS = {'quick': 2, 'thorough': 3}
+
+
+def late_bases():
+    """(schema, rows, per association: (referring rows, referred rows))"""
+    by = dict((s.name, s) for s in key_schemas())
+    yield by['b_1_mc'], [('A', dict(Id=101)), ('A', dict(Id=102)), ('B', dict(Id=201)), ('B', dict(Id=202))], [([2, 3], [0, 1])]
+    yield by['f_reflexive_1_mc'], [('A', dict(Id=101)), ('A', dict(Id=102)), ('A', dict(Id=103))], [([1, 2], [0, 1])]
+    yield by['h_subsuper'], [('P', dict(Id=101)), ('P', dict(Id=102)), ('S1', dict()), ('S2', dict())], [([2], [0, 1]), ([3], [0, 1])]
+    yield (by['g_assoc_class'], [('A', dict(Id=101)), ('A', dict(Id=102)), ('B', dict(Id=201)), ('C', dict(Id=301))],
+           [([3], [0, 1]), ([3], [2])])
+    yield (by['key_two_attrs'], [('A', dict(K1='k', K2=11, N=0)), ('A', dict(K1="m'", K2=12, N=1)), ('B', dict(Id=201)), ('B', dict(Id=202))],
+           [([2, 3], [0, 1])])
+
+
+def late_family(tier):
+    max_edits = LATE_MAX_EDITS[tier]
+    for schema, rows0, ends in late_bases():
+        # raw value of every (association, referring row): omitted (the default of the type stays behind) or the key of a
+        # referred row; the second referring row of an association chooses among omitted / first referred row only
+        slots = []
+        for ai, (srcs, tgts) in enumerate(ends):
+            for n, sidx in enumerate(srcs):
+                slots.append([(ai, sidx, None)] + [(ai, sidx, t) for t in (tgts if n == 0 else tgts[:1])])
+        for combo in itertools.product(*slots):
+            rows = [(k, dict(v)) for k, v in rows0]
+            linked0 = {}
+            for ai, sidx, t in combo:
+                a = schema.assocs[ai]
+                if t is not None:
+                    for sk, tk in zip(a.skeys, a.tkeys):
+                        rows[sidx][1][sk] = rows0[t][1][tk]
+                linked0[(ai, sidx)] = t
+            for connect in LATE_CONNECT:
+                start = dict(linked0) if connect != 'none' else dict((k, None) for k in linked0)
+
+                def rec(linked, edits):
+                    yield dict(classes=schema.classes, uniques=schema.uniques, assocs=[a.as_json() for a in schema.assocs],
+                               rows=rows, links=[], schema=schema.name, late=dict(connect=connect, edits=list(edits)))
+                    if len(edits) >= max_edits:
+                        return
+                    for (ai, sidx), t in sorted(linked.items()):
+                        a = schema.assocs[ai]
+                        if t is not None:
+                            options = [('unrelate', t, None)]
+                        else:
+                            options = [('relate', t2, t2) for t2 in ends[ai][1]]
+                        for name, other, after in options:
+                            nxt = dict(linked)
+                            nxt[(ai, sidx)] = after
+                            for c in rec(nxt, edits + [[name, sidx, other, a.rel, a.sphrase]]):
+                                yield c
+                for c in rec(start, []):
+                    yield c
+
+
 def task(ctx, t):
     family, cases = t
     for case in cases:
@@ -593,7 +684,8 @@ def jsonable(case):
 
 def run(ctx):
     fams = [('values', list(values_family(ctx.tier))), ('links', list(links_family(ctx.tier))),
-            ('keywords', list(keyword_family())), ('order', list(order_family())), ('history', list(history_family(ctx.tier)))]
+            ('keywords', list(keyword_family())), ('order', list(order_family())), ('history', list(history_family(ctx.tier))),
+            ('late', list(late_family(ctx.tier)))]
     tasks = []
     for name, cases in fams:
         cases = [jsonable(c) for c in cases]
@@ -608,6 +700,7 @@ def run(ctx):
     ctx.require(ctx.n('cases') >= 1500, 'too few cases (%d)' % ctx.n('cases'))
     ctx.require(ctx.n('family_links') >= 300, 'too few link populations (%d)' % ctx.n('family_links'))
     ctx.require(ctx.n('loads') >= 10 * ctx.n('cases'), 'too few loads per case')
+    ctx.require(ctx.n('family_late') >= 1000, 'too few populations created before their associations (%d)' % ctx.n('family_late'))
     ctx.require(ctx.n('family_history') >= 300, 'too few histories (%d)' % ctx.n('family_history'))
 
 
@@ -622,7 +715,7 @@ def coverage(ctx):
         evaluations=ctx.n('loads'), cases=ctx.n('cases'), not_constructible=ctx.n('not_constructible'),
         families=dict((k[7:], v) for k, v in ctx.counts.items() if k.startswith('family_')),
         distinct_nontrivial=ctx.nd('nontrivial'),
-        rule='states = distinct metamodels of the five families; each goes through 12 string routes, up to 4 file routes, the '
+        rule='states = distinct metamodels of the six families; each goes through 12 string routes, up to 4 file routes, the '
              'fixed-point round, serialize() dispatch and (without associations) the instances-only route; non-trivial = distinct '
              'metamodels for which every route reproduced the snapshot. History family: metamodels reached by save / live schema '
              'edit / save / edit sequences (every save route before every edit of the alphabet; pairs of edits with a save '
@@ -631,6 +724,8 @@ def coverage(ctx):
                     reals=len(REALS), ids=len(IDS), schemas=len(key_schemas()), instances_per_class=2 if ctx.quick else 3,
                     reserved_words=len(RESERVED),
                     schemas_with_several_identifiers_of_one_class=[s.name for s in key_schemas() if s.name.startswith('two_ids_')],
+                    late=dict(connect=LATE_CONNECT, max_edits=LATE_MAX_EDITS[ctx.tier], cases=ctx.n('family_late'),
+                              schemas=[b[0].name for b in late_bases()]),
                     history=dict(save_routes=SAVE_ROUTES, pair_routes=SAVE_ROUTES if not ctx.quick else HIST_PAIR_ROUTES,
                                  bases=['V (one class, 2 rows)', 'A-B (association R1, identifiers, 4 rows, 2 links)'],
                                  edits='append x 5 types, insert at 0 / 1, delete of each plain attribute; values assigned '
